@@ -671,6 +671,8 @@ func (fx *FnExec) applyContract(con *Contract, key string, recv *Val, args []Val
 		if i := strings.Index(dk, "."); i >= 0 {
 			cks = append(cks, fmt.Sprintf("%s@%d", dk[i+1:], callOrd))
 		}
+		// for a package-level function the short name and the key without its package coincide: one clause, one obligation
+		cks = dedup(cks)
 		for _, ck := range cks {
 		fx.seenCallPre[ck] = true
 		for i, r := range fx.con.CallPre[ck] {
@@ -991,7 +993,7 @@ func (fx *FnExec) ret(x *ssa.Return) error {
 			fx.oblige("typeinv", "", sImp(sNot(fx.isNil(r)), t), "representation invariant holds for a returned object", x.Pos())
 		}
 	}
-	fx.obls = append(fx.obls, &Obligation{Name: displayKey(fx.key) + fmt.Sprintf("/cover#ret%d", fx.retOrdinal(x)), Class: "cover", Fn: fx.key, Goal: sNot(fx.curReach), Upto: fx.c.mark(), Pos: fx.pos(x.Pos()), Text: "return is reachable under the contract's assumptions", fx: fx, Expect: "sat"})
+	fx.obls = append(fx.obls, &Obligation{Name: displayKey(fx.key) + fx.nameTag + fmt.Sprintf("/cover#ret%d", fx.retOrdinal(x)), Class: "cover", Fn: fx.key, Goal: sNot(fx.curReach), Upto: fx.c.mark(), Pos: fx.pos(x.Pos()), Text: "return is reachable under the contract's assumptions", fx: fx, Expect: "sat"})
 	if fx.errflow {
 		fx.errflowAtReturn(results, x)
 	}
